@@ -38,6 +38,8 @@ func c05(tier string) []*explore.Scenario {
 	}
 	out = append(out, c05Server(2, 1))
 	out = append(out, c05ServerQ(2, 0, true), c05ServerQ(3, 0, true), c05ServerQ(2, 1, true))
+	// calls being started at the moment the read side fails while the write side stays usable: whatever they put on the wire carries an id of its own
+	out = append(out, donors("C05", []*explore.Scenario{c09Many(3, 2, false, 1), c09Many(6, 0, false, 1), c09Many(2, 0, false, 2), c09Many(20, 4, false, 0)})...)
 	out = append(out, c05TwoConnections(1), c05TwoConnections(0))
 	// (c) id allocation under concurrent starts: the C01 drivers (wire oracle reports duplicate ids)
 	out = append(out, donors("C05", c01(tier))...)
